@@ -465,9 +465,17 @@ impl Run {
                 let res = futures_catch(res).await;
                 self.handles.insert(h.clone(), Some(srv));
                 let faulted = self.armed;
+                // the git wrapper emulated a process stop during this call: the server object
+                // is discarded afterwards whatever it answered, as a restart would
+                let stopped = std::env::var("GITFAULT_CTL")
+                    .map(|c| std::path::Path::new(&format!("{c}.dead")).exists())
+                    .unwrap_or(false);
                 if self.armed {
                     self.disarm();
                     self.armed = false;
+                }
+                if stopped {
+                    self.handles.insert(h.clone(), None);
                 }
                 match res {
                     Ok(Ok((AddVersionResult::Ok(v), _))) => {
@@ -483,7 +491,7 @@ impl Run {
                         self.lines.push(json!({"a":"AV","h":h,"parent":p,"body":label,"faulted":faulted,"res":"error","ver":0,"old":self.old,"msg":format!("{e:#}")}));
                         // the handle may hold stale cached state after a failure: a real client
                         // would be restarted
-                        if s["reopen_after_error"].as_bool().unwrap_or(true) {
+                        if s["reopen_after_error"].as_bool().unwrap_or(true) || stopped {
                             self.handles.insert(h.clone(), None);
                         }
                     }
@@ -601,8 +609,14 @@ impl Run {
                 // the git wrapper script (gitwrap.sh) reads its instructions from $GITFAULT_CTL
                 if let Some(cmd) = s["cmd"].as_str() {
                     let ctl = std::env::var("GITFAULT_CTL").expect("GITFAULT_CTL");
-                    let mut rules =
-                        format!("{} {} {}\n", cmd, at, if after { "after" } else { "before" });
+                    let stop = s["kind"].as_str() == Some("stop");
+                    let when = match (stop, after) {
+                        (false, false) => "before",
+                        (false, true) => "after",
+                        (true, false) => "stop",
+                        (true, true) => "stopafter",
+                    };
+                    let mut rules = format!("{} {} {}\n", cmd, at, when);
                     // further commands failing in the same call (e.g. the remote is unreachable)
                     if let Some(more) = s["also"].as_array() {
                         for m in more {
@@ -635,6 +649,7 @@ impl Run {
         }
         if let Ok(ctl) = std::env::var("GITFAULT_CTL") {
             let _ = std::fs::remove_file(&ctl);
+            let _ = std::fs::remove_file(format!("{ctl}.dead"));
             if let Some(dir) = std::path::Path::new(&ctl).parent() {
                 if let Ok(rd) = std::fs::read_dir(dir) {
                     for e in rd.flatten() {
